@@ -17,6 +17,12 @@ P = {
             'value; every path (<=3 per instance) is closed by z3 against the documented formula, zero-on-feasible, '
             'positive-on-violated, error()=violation magnitude, iter/clear/store programs and stacking. Exhaustive over all reals '
             'within the enumerated iteration counts / op programs.', 'DESIGN.md#c15', ''),
+    'C10': (True, 'model_checking',
+            'Every termination factory is called on a solver-state object whose energy history (entries real or +inf), tolerances, '
+            'targets, populations, energies, counters and clock instants are solver variables; each path of the real code is closed '
+            'against the documented inequality (iff). And/Or/When trees (all shapes up to the bound, real leaves with independent '
+            'solver-chosen truth values) are checked against the propositional reading, exact info strings, self/not partitions; '
+            'leaf conditions rebuilt from state() give the same verdict.', 'DESIGN.md#c10', ''),
 }
 
 NOT_YET = 'check not built yet in this round (planned: DESIGN.md section 4)'
